@@ -114,7 +114,12 @@ static inline void c15_in_init(void)
 	g_gets = 0;
 	g_winsz = verif_nd_size("winsz");
 	VERIF_ASSUME(g_winsz >= 1 && g_winsz <= 0x7fffffffffffULL);
+#ifdef VERIF_REPLAY
+	/* native replay: the stubs never touch payload, a small block will do */
+	g_win = malloc(g_winsz > 4096 ? 4096 : g_winsz);
+#else
 	g_win = malloc(g_winsz);
+#endif
 	VERIF_ASSUME(g_win != NULL);
 }
 
@@ -155,7 +160,8 @@ static int c15_process_data(xfrm_stream_t *stream, const void *in,
 	VERIF_ASSERT(stream == &g_codec_obj && !g_codec_err, "C15.codec.args");
 	c15_codec_pre(in, in_size, out, out_size, *in_read, *out_written,
 		      flush_mode);
-	VERIF_ASSERT(VERIF_R_OK(in, in_size) && VERIF_W_OK(out, out_size),
+	VERIF_ASSERT((in_size == 0 || VERIF_R_OK(in, in_size)) &&
+		     (out_size == 0 || VERIF_W_OK(out, out_size)),
 		     "C15.codec.buffers");
 #ifdef C15_MAX_CALLS
 	/* bounded harnesses: at most C15_MAX_CALLS codec calls are explored */
@@ -176,11 +182,12 @@ static int c15_process_data(xfrm_stream_t *stream, const void *in,
 	if (st == XFRM_STREAM_OK || st == XFRM_STREAM_END)
 		VERIF_ASSUME(c > 0 || p > 0);
 #ifdef C15_COMPRESSOR
-	/* a compressor ends the stream only when told to, and then within a
-	 * finite number of calls */
+	/* a compressor ends the stream only when told to, within a finite
+	 * number of calls ... */
 	if (st == XFRM_STREAM_END)
 		VERIF_ASSUME(flush_mode == XFRM_STREAM_FLUSH_FULL);
-	if (flush_mode == XFRM_STREAM_FLUSH_FULL && st != XFRM_STREAM_END) {
+	/* ... and it takes input again after finitely many calls */
+	if (st != XFRM_STREAM_END && c == 0) {
 		VERIF_ASSUME(g_end_fuel > 0);
 		g_end_fuel--;
 	}
